@@ -94,10 +94,8 @@ Definition check_case (c : case) : nat :=
   | Err _, ObsOk _ _ _ _ _ _ _ => 1
   | Ok _, ObsErr _ => 1
   | Ok u, ObsOk res sq tm warn winfo mmc prc =>
-      let tr := cg_trace ArFloat (g_n g) (size (g_rhs g)) (g_nc g) (u_mm u) (u_pre u) (u_precond u) (g_eps g)
-                  (g_stop_after g) (u_tolerance u) (s_tri_thresh S) (u_rhs_is_zero u) (g_n_tridiag g)
-                  (u_max_iter u) (u_nti u) (u_n_iter u) 0 (u_s0 u) in
-      let sf := last (u_s0 u) tr in
+      let tr := cg_states ArFloat S g u in
+      let sf := last (u_s0 u) tr in   (* = cg_final ArFloat S g u, computed once *)
       let o := cg_finish ArFloat g u sf in
       let tol := c_tol c in
       if o_squeeze o && (g_nc g == 1) != sq then 3
